@@ -469,12 +469,38 @@ func main() {
 	writeIfChanged(filepath.Join(*out, "ConfigDefaults.lean"), b.Bytes())
 
 	// ---- Access.lean (C09) -------------------------------------------------
-	acc, notes := accessTable(*repo)
-	writeIfChanged(filepath.Join(*out, "Access.lean"), acc)
+	var acc []byte
+	var notes []string
+	func() {
+		// a construct the table builder does not understand must not take the other tables down:
+		// the committed table of the verified tree is kept and the tie for C09 is reported as unavailable
+		defer func() {
+			if rec := recover(); rec != nil {
+				notes = append(notes, fmt.Sprintf("static tie unavailable for the access table (extractor: %v); baseline table kept", rec))
+				acc, _ = os.ReadFile(filepath.Join(baselineDir, "Access.lean"))
+			}
+		}()
+		acc, notes = accessTable(*repo)
+	}()
+	if len(acc) > 0 {
+		writeIfChanged(filepath.Join(*out, "Access.lean"), acc)
+	}
 
 	// ---- Lifecycle.lean (C11) ----------------------------------------------
-	lc, lnotes := lifecycleTable(proto)
-	writeIfChanged(filepath.Join(*out, "Lifecycle.lean"), lc)
+	var lc []byte
+	var lnotes []string
+	func() {
+		defer func() {
+			if rec := recover(); rec != nil {
+				lnotes = append(lnotes, fmt.Sprintf("static tie unavailable for the handlers' deferred calls (extractor: %v); baseline kept", rec))
+				lc, _ = os.ReadFile(filepath.Join(baselineDir, "Lifecycle.lean"))
+			}
+		}()
+		lc, lnotes = lifecycleTable(proto)
+	}()
+	if len(lc) > 0 {
+		writeIfChanged(filepath.Join(*out, "Lifecycle.lean"), lc)
+	}
 	notes = append(notes, lnotes...)
 
 	for _, m := range missing {
